@@ -168,6 +168,66 @@ Proof.
   repeat constructor; lia.
 Qed.
 
+(* ---------------------------------------------------------------------------------------------------------------
+   the non-finite corner (what the current code does): nan / +inf / -inf probabilities, rates and weights, negative
+   rates and weights.  The result is always a deterministic function of (draws, inputs).
+   --------------------------------------------------------------------------------------------------------------- *)
+(* for draws in [0,1) a nan or -inf probability behaves exactly as probability 0 and +inf as probability 1: all the
+   filter theorems above (order, content, monotone, zero, one) carry over through [clamp_spec] *)
+Theorem C05_nonfinite_probability_is_clamped : forall (A : Type) D (pop : list (label * A)) ds p, in_range D ds ->
+  filter_px pop ds p = filter_p pop ds (clamp_spec D p).
+Proof. exact @filter_px_clamp. Qed.
+
+(* ... in particular a simulant whose probability is nan (or -inf) is NEVER selected, one with +inf always *)
+Theorem C05_nan_never_selects : forall (A : Type) (pop : list (label * A)) (draw : label -> Z) (pr : label -> xnum),
+  exists res, filter_px pop (map (fun r => draw (fst r)) pop) (XArray (map pr (map fst pop))) = Ok res /\
+    (forall r, In r res -> pr (fst r) <> XNaN /\ pr (fst r) <> XNInf) /\
+    (forall r, In r pop -> pr (fst r) = XPInf -> In r res).
+Proof.
+  intros A pop draw pr. exists (filter (fun r => x_lt (draw (fst r)) (pr (fst r))) pop).
+  split; [apply filter_px_exact|]. split.
+  - intros r Hr. apply filter_In in Hr as [_ Hr]. split; intros E; rewrite E in Hr; discriminate.
+  - intros r Hr E. apply filter_In. split; [assumption|]. now rewrite E.
+Qed.
+
+(* rates: a nan rate gives a nan probability (never selects), -inf gives -inf (never selects), +inf behaves as the
+   250 cap (as every rate at or above it), and a rate <= 0 gives a probability <= 0 (never selects) *)
+Theorem C05_nonfinite_rate : forall D cap (expneg : Z -> Z),
+  r2p_x D cap expneg XNaN = XNaN /\ r2p_x D cap expneg XNInf = XNInf /\
+  (forall z, cap <= z -> r2p_x D cap expneg XPInf = r2p_x D cap expneg (Fin z)) /\
+  ((forall r r', r <= r' -> expneg r' <= expneg r) -> expneg 0 = D -> 0 <= cap ->
+     forall r d, r <= 0 -> 0 <= d -> x_lt d (r2p_x D cap expneg (Fin r)) = false).
+Proof.
+  intros D cap expneg. repeat split.
+  - intros z Hz. now apply r2p_x_pinf.
+  - intros Hexp H0 Hc r d Hr Hd. simpl. apply Z.ltb_ge.
+    pose proof (r2p_nonpositive D cap expneg Hexp H0 Hc r Hr). lia.
+Qed.
+
+Theorem C05_rate_x_is_probability : forall (A : Type) D cap expneg (pop : list (label * A)) ds r,
+  filter_rate_x D cap expneg pop ds r = filter_px pop ds (r2p_xspec D cap expneg r).
+Proof. reflexivity. Qed.
+
+(* weights: with finite weights the extended choice is the finite one; a row containing nan yields option 0 whatever
+   the draw (and disturbs no other row); an infinite weight is refused *)
+Theorem C05_choice_x_finite : forall D U draws c p, finite_spec p -> choice_x D U draws c p = choice D U draws c p.
+Proof. exact choice_x_finite. Qed.
+
+Theorem C05_choice_nan_row : forall D U draws c p ks, choice_x D U draws c p = Ok ks ->
+  length ks = length draws /\
+  forall i, (i < length draws)%nat ->
+    (existsb is_nan (row_of c p i) = true -> nth i ks O = O) /\
+    (existsb is_nan (row_of c p i) = false -> nth i ks O = choice_row D (nth i draws 0) (fill U (row_of c p i))).
+Proof. exact choice_x_ok. Qed.
+
+Theorem C05_choice_inf_refused : forall D U draws c p r, In r (initial_rows (length draws) c p) ->
+  existsb is_nan r = false -> existsb is_inf r = true -> choice_x D U draws c p = Rejected EOther.
+Proof. exact choice_x_inf. Qed.
+
+(* negative weights: only the normalised weights matter - a negative total decides as the negated row *)
+Theorem C05_choice_negative_total : forall D d ws, sumZ ws < 0 -> choice_row D d ws = choice_row D d (map Z.opp ws).
+Proof. exact choice_row_negative_total. Qed.
+
 (* ---- non-vacuity ---- *)
 Example demo_filter :
   (* rows 5,3,9,1 with contents; draws 1/8, 7/8, 3/8, 4/8 over D = 8 *)
@@ -212,6 +272,20 @@ Example demo_guard_met : nonneg [0; 3; 0; 5] /\ 0 < sumZ [0; 3; 0; 5] /\
   nth (choice_row 8 3 [0; 3; 0; 5]) [0; 3; 0; 5] 0 = 3 /\ nth (choice_row 8 4 [0; 3; 0; 5]) [0; 3; 0; 5] 0 = 5.
 Proof. split; [repeat constructor; lia | vm_compute; repeat split]. Qed.
 
+Example demo_nonfinite :
+  let pop := [(5, 10); (3, 20); (9, 30); (1, 40)] in
+  let ds := [1; 7; 3; 4] in
+  filter_px pop ds (XArray [XNaN; XPInf; XNInf; Fin 5]) = Ok [(3, 20); (1, 40)] /\
+  filter_px pop ds (XScalar XNaN) = Ok [] /\ filter_px pop ds (XScalar XPInf) = Ok pop /\
+  (let expneg := tbl_expneg [(0, 16); (1, 6); (250, 0); (-1, 43)] in
+   filter_rate_x 16 250 expneg [(0, 0); (1, 0); (2, 0); (3, 0)] [3; 9; 15; 0] (XArray [XNaN; XPInf; Fin (-1); XNInf])
+   = Ok [(1, 0)]) /\
+  choice_x 8 8 [3; 7; 5] 3 (W2 [[Wt 0; WNaN; Wt 1]; [Wt 2; Wt 2; Wt 4]; [Wt 4; Wt (-2); Wt 6]]) = Ok [0; 2; 2]%nat /\
+  choice_x 8 8 [3; 7] 3 (W1 [Wt 1; WInf; Wt 1]) = Rejected EOther /\
+  choice_x 8 8 [3; 7] 3 (W1 [WNaN; Residual; Wt 1]) = Rejected EOther /\
+  choice_x 8 8 [1; 3; 5; 7] 3 (W1 [Wt (-1); Wt (-1); Wt (-2)]) = choice 8 8 [1; 3; 5; 7] 3 (W1 [Wt 1; Wt 1; Wt 2]).
+Proof. vm_compute. repeat split. Qed.
+
 Print Assumptions C05_filter_spec.
 Print Assumptions C05_filter_keeps_exactly.
 Print Assumptions C05_filter_type_and_order.
@@ -231,3 +305,11 @@ Print Assumptions C05_choice_nonzero.
 Print Assumptions C05_choice_nonzero_all.
 Print Assumptions C05_choice_zero_draw_picks_first.
 Print Assumptions C05_choice_zero_draw_refuted.
+Print Assumptions C05_nonfinite_probability_is_clamped.
+Print Assumptions C05_nan_never_selects.
+Print Assumptions C05_nonfinite_rate.
+Print Assumptions C05_rate_x_is_probability.
+Print Assumptions C05_choice_x_finite.
+Print Assumptions C05_choice_nan_row.
+Print Assumptions C05_choice_inf_refused.
+Print Assumptions C05_choice_negative_total.
